@@ -42,6 +42,7 @@ type script struct {
 	hijack   bool
 	hijacked string
 	pre101   bool // call WriteHeader(101) before hijacking, as protocol switches may do
+	plainTop bool // the top-level writer supports neither Hijack nor Flush
 }
 
 type outcome struct {
@@ -68,15 +69,19 @@ func (s *script) handler(o *outcome) http.Handler {
 		if s.hijack {
 			hj, ok := w.(http.Hijacker)
 			if !ok {
+				http.Error(w, "upgrade required", http.StatusUpgradeRequired)
 				return
 			}
-			if s.pre101 {
+			if s.pre101 && !s.plainTop {
 				w.Header().Set("Upgrade", "verif")
 				w.WriteHeader(http.StatusSwitchingProtocols)
 			}
 			conn, _, err := hj.Hijack()
 			if err != nil {
 				o.hijackErr = err
+				// the connection cannot be taken over: answer normally instead
+				w.Header().Set("X-Fallback-Answer", "1")
+				http.Error(w, "upgrade required", http.StatusUpgradeRequired)
 				return
 			}
 			_, _ = io.WriteString(conn, s.hijacked)
@@ -110,6 +115,7 @@ func genScript(t *rapid.T) *script {
 		s.hijack = true
 		s.hijacked = "HTTP/1.1 101 Switching\r\n\r\n" + rapid.StringMatching(`[a-z]{0,20}`).Draw(t, "raw")
 		s.pre101 = rapid.Bool().Draw(t, "pre101")
+		s.plainTop = rapid.IntRange(0, 2).Draw(t, "plainTop") == 0
 		return s
 	}
 	if rapid.IntRange(0, 5).Draw(t, "info") == 0 {
@@ -221,14 +227,26 @@ func wrap(t *rapid.T, kind string, next http.Handler, intervene bool) http.Handl
 	return nil
 }
 
-func serve(h http.Handler, rec *sim.Recorder, req *http.Request, hijack bool) (string, any) {
+// plainWriter exposes only the basic ResponseWriter of a recorder: a connection
+// that can be neither hijacked nor flushed (HTTP/2, a test recorder, ...).
+type plainWriter struct{ r *sim.Recorder }
+
+func (p plainWriter) Header() http.Header         { return p.r.Header() }
+func (p plainWriter) Write(b []byte) (int, error) { return p.r.Write(b) }
+func (p plainWriter) WriteHeader(code int)        { p.r.WriteHeader(code) }
+
+func serve(h http.Handler, rec *sim.Recorder, req *http.Request, hijack bool, plain ...bool) (string, any) {
 	var hijacked []byte
 	done := make(chan struct{})
 	var panicked any
+	var w http.ResponseWriter = rec
+	if len(plain) > 0 && plain[0] {
+		w = plainWriter{rec}
+	}
 	go func() {
 		defer close(done)
 		defer func() { panicked = recover() }()
-		h.ServeHTTP(rec, req)
+		h.ServeHTTP(w, req)
 	}()
 	if hijack {
 		// the handler writes into a synchronous pipe: read its other end
@@ -280,7 +298,9 @@ func TestC20_Transparent(t *testing.T) {
 		// bare run
 		var o0 outcome
 		rec0 := sim.NewRecorder()
-		hij0, p0 := serve(s.handler(&o0), rec0, newRequest(bodyLen), s.hijack)
+		plain := s.hijack && s.plainTop
+		hijack := s.hijack && !plain
+		hij0, p0 := serve(s.handler(&o0), rec0, newRequest(bodyLen), hijack, plain)
 		if p0 != nil {
 			t.Fatalf("INFRA: bare handler panicked: %v (%s)", p0, s)
 		}
@@ -291,7 +311,7 @@ func TestC20_Transparent(t *testing.T) {
 			h = wrap(t, layers[i], h, false)
 		}
 		rec1 := sim.NewRecorder()
-		hij1, p1 := serve(h, rec1, newRequest(bodyLen), s.hijack)
+		hij1, p1 := serve(h, rec1, newRequest(bodyLen), hijack, plain)
 		desc := fmt.Sprintf("stack (outermost first) %v, handler %s, request body %d bytes", layers, s, bodyLen)
 		if p1 != nil {
 			t.Fatalf("the stack panicked: %v\n%s", p1, desc)
@@ -307,13 +327,13 @@ func TestC20_Transparent(t *testing.T) {
 				hasBuffer = true
 			}
 		}
-		if !o1.hijackerOK {
+		if !plain && !o1.hijackerOK {
 			t.Fatalf("http.Hijacker is not available to the handler\n%s", desc)
 		}
-		if !hasBuffer && !o1.flusherOK {
+		if !plain && !hasBuffer && !o1.flusherOK {
 			t.Fatalf("http.Flusher is not available to the handler although no buffer is in the stack\n%s", desc)
 		}
-		if s.hijack {
+		if hijack {
 			if o1.hijackErr != nil {
 				t.Fatalf("Hijack failed inside the stack: %v\n%s", o1.hijackErr, desc)
 			}
@@ -329,6 +349,9 @@ func TestC20_Transparent(t *testing.T) {
 			for _, l := range sim.HeaderMultiset(rec1.SentHeader()) {
 				if strings.HasPrefix(l, "Set-Cookie: sid=") {
 					continue // the sticky session's documented addition
+				}
+				if strings.HasPrefix(l, "X-Fallback-Answer:") {
+					continue // the handler's own marker for "hijack was offered but failed"
 				}
 				h1 = append(h1, l)
 			}
@@ -356,8 +379,11 @@ func TestC20_Transparent(t *testing.T) {
 		special := (s.flush && len(s.writes) > 0) || s.hijack || s.status == 0
 		nt := depth >= 3 && len(kinds) >= 2 && special
 		cl := []string{fmt.Sprintf("depth=%d", depth)}
-		if s.hijack {
+		if hijack {
 			cl = append(cl, "hijack")
+		}
+		if plain {
+			cl = append(cl, "hijack-refused-by-top-level-writer")
 		}
 		if s.flush && len(s.writes) > 0 {
 			cl = append(cl, "flush")
